@@ -91,6 +91,14 @@ def readouts(ch, cfg):
                 out[f"probs[{burn}::{thin}]"] = np.array(ch.get_probabilities(burn=burn, thin=thin), copy=True)
                 out[f"param0[{burn}::{thin}]"] = np.array(ch.get_parameter(0, burn=burn, thin=thin), copy=True)
             out["mode"] = np.array(ch.mode(), copy=True)
+            # tuning state and settings the object reports as attributes (values, whatever numeric type holds them)
+            for name in ("inv_temp", "temperature", "alpha", "steps"):
+                if hasattr(ch, name) and np.ndim(getattr(ch, name)) == 0:
+                    out["attr " + name] = float(getattr(ch, name))
+            if hasattr(ch, "ES"):
+                out["attr ES.epsilon"] = float(ch.ES.epsilon)
+            if hasattr(ch, "params"):
+                out["attr params.sigma"] = np.array([float(q.sigma) for q in ch.params])
             b = getattr(ch, "bounds", None)
             if b is not None:
                 out["bounds.lower"], out["bounds.upper"] = np.array(b.lower, copy=True), np.array(b.upper, copy=True)
